@@ -23,6 +23,37 @@ CHECKS = {
         note=TB + 'UCI protocol restricts commands during a search to stop/isready/quit; field-based sharing; '
                   'exception edges not modelled.',
         technique='static race/effect analysis: thread-root call-graph reachability x field access sets; CFG dominance and path rules'),
+    'C05': dict(
+        category='other',
+        text='Partial. Decides for every path/schedule: exactly one bestmove per go (R1), the NO_MOVE sentinel cannot '
+             'reach the printed move (R2, abstract interpretation of the answer field along go->iter_search with the '
+             'stop flag unknown at every read), every use of a transposition-table move other than an equality '
+             'comparison is behind std::find(begin,end,move)!=end over the node\'s own list (R3), PV moves originate '
+             'from that list (R4), ordering only swaps list elements (R5), no non-returning construct in the search '
+             'thread (R6). Legality of the generated list itself is C01; timing is not decided.',
+        design_ref='DESIGN.md §3 C05',
+        note=TB + 'A-ROOT: root move list non-empty (the property\'s precondition); table scores may steer the choice among legal moves.',
+        technique='static: CFG path rules, sentinel dataflow, taint + dominating-guard (control dependence) rule'),
+    'C08': dict(
+        category='other',
+        text='Partial (necessary conditions): the -VALUE_INFINITE initialiser of a max-accumulation loop is never '
+             'returned (path-sensitive value analysis over search/quiescence), the UCI formatter converts plies to '
+             'moves, both searches adjust mate distances alike after undo_move, the no-legal-move test precedes '
+             'quiescence and the table probe, pruning exempts checks, and the score bands satisfy the compiled '
+             'static_assert witness. Truth/minimality of an announced mate is a game-tree fact and is not decided.',
+        design_ref='DESIGN.md §3 C08',
+        note=TB + 'A-LEN: generated list length >= 0; child results are never +-VALUE_INFINITE (established inductively by R1).',
+        technique='static: path-sensitive sentinel analysis, sibling-agreement and dominance rules, static_assert witness TU'),
+    'C09': dict(
+        category='other',
+        text='Partial: every definition of the depth limit is clamped to MAX_DEPTH (R1); the iteration counter is '
+             'reset, incremented exactly once per cycle, printed unmodified and tested against the limit on every '
+             'cycle (R2); the root list is exactly searchmoves when given, written only by the constructor, and the '
+             'ply-0 node iterates only it (R3); each recursive call carries a decreasing measure behind a cut (R4). '
+             'Wall-clock adherence is not decided.',
+        design_ref='DESIGN.md §3 C09',
+        note=TB + 'root PV head being an element of the root list relies on C05.R3/R4.',
+        technique='static: reaching-definition/interval clamp rule, loop-cycle and dominance rules, recursion measure rule'),
 }
 
 NOT_APPLICABLE = {
